@@ -75,9 +75,100 @@ class NameModeForce(Suite):
         return repr(case)
 
 
+class DataKindsForce(Suite):
+    """every persisting data class: a task computed (or loaded) in this process, then forced through the chain with and
+    without delete_data, from the computing object and from a new chain: forcing raises nothing, marks the task,
+    delete_data removes its stored result, the next request runs it exactly once and replaces the result, and a
+    request after that runs nothing.  Runtime check on the real data classes (the history model stores JSON values)."""
+    name = 'data_classes_forcing'
+    model = ''
+
+    def gen(self, rng, tier):
+        from .c05 import KINDS
+        return [dict(kind=k, delete=d, who=w) for k in KINDS for d in (False, True) for w in ('computing_object', 'loaded_object', 'new_chain')]
+
+    def run_impl(self, case):
+        import os, shutil, sys, tempfile
+        from .c05 import make_module, the_chain, in_child, describe_result
+        kind = case['kind']
+        tmp = tempfile.mkdtemp(prefix='tcverif-c07-')
+        old = os.getcwd()
+        try:
+            os.chdir(tmp)
+            state = dict(run=1, runs=0, fault=None, bad=None, empty=False, big=False)
+            m = make_module(kind, state)
+
+            def scenario():
+                out = {}
+                ch = the_chain(m, 'data')
+                t = ch['c05:victim']
+                out['v1'] = describe_result(kind, t.value)
+                if case['who'] != 'computing_object':
+                    ch = the_chain(m, 'data')
+                    t = ch['c05:victim']
+                    if case['who'] == 'loaded_object':
+                        out['v_loaded'] = describe_result(kind, t.value)
+                runs0 = state['runs']
+                state['run'] = 2
+                try:
+                    ch.force('c05:victim', delete_data=case['delete'])
+                    out['force'] = 'ok'
+                except Exception as e:
+                    out['force'] = f'{type(e).__name__}: {e}'[:200]
+                out['forced'] = bool(t.is_forced)
+                out['has_after_force'] = bool(the_chain(m, 'data')['c05:victim'].has_data)
+                try:
+                    out['v2'] = describe_result(kind, t.value)
+                except Exception as e:
+                    out['v2_error'] = f'{type(e).__name__}: {e}'[:200]
+                out['runs_forced'] = state['runs'] - runs0
+                t3 = the_chain(m, 'data')['c05:victim']
+                out['has_end'] = bool(t3.has_data)
+                out['v3'] = describe_result(kind, t3.value)
+                out['runs_total'] = state['runs'] - runs0
+                return out
+            return in_child(scenario)
+        finally:
+            os.chdir(old)
+            sys.modules.pop('tcv_dyn_c05', None)
+            shutil.rmtree(tmp, ignore_errors=True)
+
+    def oracle(self, case, obs):
+        import json
+        if 'unexpected_exception' in obs:
+            return f'unexpected exception {obs["unexpected_exception"]}: {obs["text"]}'
+        if 'child_error' in obs:
+            return f'{case}: failed: {obs["child_error"]}'
+        if obs['force'] != 'ok':
+            return f'{case}: Chain.force(delete_data={case["delete"]}) raised {obs["force"]}'
+        if not obs['forced']:
+            return f'{case}: the forced task is not marked'
+        if case['delete'] and obs['has_after_force']:
+            return f'{case}: delete_data left the stored result in place'
+        if not case['delete'] and not obs['has_after_force']:
+            return f'{case}: forcing without delete_data removed the stored result'
+        if 'v2_error' in obs:
+            return f'{case}: the request after forcing fails: {obs["v2_error"]}'
+        if obs['runs_forced'] != 1:
+            return f'{case}: the request after forcing ran the task {obs["runs_forced"]} times'
+        if json.dumps(obs['v2'], sort_keys=True, default=str) == json.dumps(obs['v1'], sort_keys=True, default=str) and case['kind'] != 'continues':
+            return f'{case}: the forced request returned the value of the first run'
+        if not obs['has_end'] or obs['runs_total'] != 1:
+            return f'{case}: after the forced run a new chain has_data={obs["has_end"]} and {obs["runs_total"] - 1} further run(s)'
+        if json.dumps(obs['v3'], sort_keys=True, default=str) != json.dumps(obs['v2'], sort_keys=True, default=str):
+            return f'{case}: a new chain loads {json.dumps(obs["v3"], default=str)[:150]}, the forced run returned {json.dumps(obs["v2"], default=str)[:150]}'
+        return None
+
+    def nontrivial(self, case, obs):
+        return True
+
+    def key(self, case):
+        return repr(case)
+
+
 class C07(Prop):
     pid = 'C07'
-    suites = [Forcing(), NameModeForce()]
+    suites = [Forcing(), NameModeForce(), DataKindsForce()]
     assumptions = ['Chain.force iterates a set: the recomputation order is arbitrary, the model uses one order and the '
                    'comparison sorts the runs of that operation']
 
